@@ -137,7 +137,8 @@ MetaClauses(f, c, evs) ==
             \cup Fail(IF c.epoch = "" THEN ~HasMeta(evs, in, "1003") ELSE Is(evs, in, "1003", NormNum(c.epoch)), f, "EPOCH")
             \cup Fail(Is(evs, in, "1004", IF c.rpm.summary # "" THEN c.rpm.summary ELSE Lines(desc)[1]), f, "SUMMARY")
             \cup Fail(Is(evs, in, "1005", desc), f, "DESCRIPTION")
-            \cup Fail(IffSet(evs, in, "1007", c.rpm.buildhost), f, "BUILDHOST")
+            \* the configured build host; none configured: the name of the machine the package is built on (never another package's)
+            \cup Fail(Is(evs, in, "1007", IF c.rpm.buildhost = "" THEN c.rpm.hostname ELSE c.rpm.buildhost), f, "BUILDHOST")
             \cup Fail(IffSet(evs, in, "1011", c.vendor), f, "VENDOR")
             \cup Fail(IffSet(evs, in, "1014", c.license), f, "LICENSE")
             \cup Fail(IffSet(evs, in, "1015", IF c.rpm.packager # "" THEN c.rpm.packager ELSE c.maintainer), f, "PACKAGER")
